@@ -13,7 +13,7 @@ PID = 'C16'
 TAU = 1e-8
 TAU_FN = {'hyperu': 1e-6}      # scipy.special.hyperu itself is only ~1e-9 accurate at shifted parameters
 RULE = ('every function exported by algopy.nthderiv x order n in 0..nmax in shuffled sequence (plus n in {16,22,30} at random points) x evaluation point (random in the declared domain at '
-        'distance >= delta from singularities, plus hostile points inside the domain: 0, +-tiny, integers, large) x '
+        'distance >= delta from singularities, plus hostile points inside the domain: 0, +-tiny, integers, large, the largest arguments with representable values) x '
         'extra parameters; value compared with mp.diff of the mpmath function; a class = (function, params, n, point class); '
         'non-trivial = n>=1 or the n=0 value check against NumPy/SciPy')
 ASSUMPTIONS = ['mpmath functions and mp.diff at 60 digits are the reference',
@@ -57,6 +57,7 @@ TABLE = {
 PIECEWISE = ['rint', 'fix', 'floor', 'ceil', 'trunc', 'sign', 'absolute', 'clip']
 HYPERU_PARAMS = [(0.5, 0.75), (1.0, 1.5), (1.5, 2.25), (2.5, 0.75), (-0.5, 1.5), (-1.5, 0.75)]
 POLYGAMMA_M = [0, 1, 2, 3]
+NEAR_OVERFLOW = {'exp': [709.7], 'exp2': [1023.9], 'expm1': [709.7], 'sinh': [710.4, -710.4], 'cosh': [710.4, -710.4]}
 
 
 def _points(name, dom, rng, tier):
@@ -66,6 +67,8 @@ def _points(name, dom, rng, tier):
     if dom == 'R':
         pts += [(float(v), 'random') for v in rng.normal(size=k) * 1.5]
         pts += [(0.0, 'zero'), (1e-9, 'tiny'), (-1e-9, 'tiny'), (1.0, 'integer'), (-2.0, 'integer'), (6.5, 'large'), (-7.25, 'large')]
+        # the last arguments at which the function and its derivatives are still representable
+        pts += [(v, 'near-overflow') for v in NEAR_OVERFLOW.get(name, [])]
     elif dom == 'pos':
         pts += [(float(v), 'random') for v in rng.uniform(0.2, 5, size=k)]
         pts += [(1e-3, 'tiny'), (1.0, 'integer'), (3.0, 'integer'), (40.0, 'large')]
